@@ -136,3 +136,8 @@ Example C19_repaired_versions :
   | Err _ => False
   end.
 Proof. exact repaired_versions. Qed.
+
+(* non-vacuity of the per-loop theorems: the constructor establishes their hypothesis [bgood] *)
+Example C19_bgood_satisfiable :
+  match construct_model witness_versions with Ok f => bgood (mk_bctx f) | Err _ => False end.
+Proof. exact bgood_witness. Qed.
